@@ -396,8 +396,32 @@ class _NoAssignment(Exception):
     pass
 
 
+def _label_reads(code):
+    """the period labels read as self['NAME', label] in `code` (label a literal), or None when a label is no literal"""
+    import ast
+    out = []
+    try:
+        tree = ast.parse(code)
+    except SyntaxError:
+        return None
+    for node in ast.walk(tree):
+        if isinstance(node, ast.Subscript) and isinstance(node.value, ast.Name) and node.value.id == 'self':
+            sl = node.slice
+            if isinstance(sl, ast.Tuple) and len(sl.elts) == 2 and isinstance(sl.elts[0], ast.Constant) and isinstance(sl.elts[1], ast.Constant):
+                if sl.elts[1].value not in out:
+                    out.append(sl.elts[1].value)
+            else:
+                return None
+    return out
+
+
+N_VECTORS = 4
+DELTAS = (0.37, -0.41, 7.3, -7.3)        # small ones, and ones large enough to make a term under max / min / a comparison win or lose
+
+
 def _isolated(symbols, seed):
-    """every equation executed alone on the built model: perturbation effects and recorded reads"""
+    """every equation executed alone on the built model: perturbation effects and recorded reads.  One entry per assigned term
+    (a tuple assignment `S,D = …` gives one per target).  Named periods (`X['2000']`) are positions appended to the span."""
     import random
     import warnings
 
@@ -407,19 +431,12 @@ def _isolated(symbols, seed):
     import fsic
     Model = fsic.build_model(symbols)
     lags, leads = int(Model.LAGS), int(Model.LEADS)
-    n = lags + leads + 5
+    n0 = lags + leads + 5
     t = lags + 2
     names = [x for x in Model.NAMES]
     rng = random.Random(seed)
-    datas = [{nm: [rng.uniform(0.5, 2.0) for _ in range(n)] for nm in names} for _ in range(3)]
     res = []
     endo = [s for s in symbols if s.type.name == 'ENDOGENOUS' and s.code is not None]
-
-    def fresh(data):
-        m = Model(range(n))
-        for nm in names:
-            m.__dict__['_' + nm][:] = data[nm]
-        return m
 
     def run(m, code):
         env = {'np': np, 'self': m, 't': t}
@@ -427,20 +444,37 @@ def _isolated(symbols, seed):
             warnings.simplefilter('ignore')
             exec(compile(code, '<equation>', 'exec'), env)      # the real generated statement, alone
 
+    one = r'[A-Za-z_][A-Za-z_0-9]*\[t(?:[+-][0-9]+)?\]'
     for s in endo:
-        lhs = s.equation.split('=', 1)[0].strip()
-        mm = re.fullmatch(r'([A-Za-z_][A-Za-z_0-9]*)\[t([+-][0-9]+)?\]', lhs)
-        if not mm:
-            res.append({'lhs': lhs, 'skip': 'lhs'})
+        lhs_all = s.equation.split('=', 1)[0].strip()
+        if not re.fullmatch(one + r'(?:\s*,\s*' + one + r')*', lhs_all):
+            res.append({'lhs': lhs_all, 'skip': 'lhs'})
             continue
+        mine = [m for m in TERM_ID.finditer(lhs_all) if m.group(1) == s.name]
+        if not mine:
+            res.append({'lhs': lhs_all, 'skip': 'lhs'})
+            continue
+        mm = mine[0]
+        lhs = mm.group(0)
         y, ky = mm.group(1), int(mm.group(2) or 0)
-        if not (0 <= t + ky < n):
+        if not (0 <= t + ky < n0):
             res.append({'lhs': lhs, 'skip': 'range'})
             continue
-        if "self['" in s.code:
-            res.append({'lhs': lhs, 'skip': 'named-period'})      # periods such as '2000' are not on the integer test span
+        labels = _label_reads(s.code)
+        if labels is None or any(isinstance(lb, int) and 0 <= lb < n0 for lb in labels):
+            res.append({'lhs': lhs, 'skip': 'named-period'})      # a label that is no literal, or collides with the integer test span
             continue
-        entry = {'lhs': lhs, 'reads': [], 'infl': []}
+        span = list(range(n0)) + labels
+        n = len(span)
+        datas = [{nm: [rng.uniform(0.5, 2.0) for _ in range(n)] for nm in names} for _ in range(N_VECTORS)]
+
+        def fresh(data):
+            m = Model(span)
+            for nm in names:
+                m.__dict__['_' + nm][:] = data[nm]
+            return m
+
+        entry = {'lhs': lhs, 'reads': [], 'infl': [], 'labels': [repr(lb) for lb in labels], 'tuple': ',' in lhs_all}
         try:
             base = []
             for d in datas:
@@ -451,13 +485,16 @@ def _isolated(symbols, seed):
                 base.append(float(np.asarray(m.__dict__['_' + y])[t + ky]))
                 if not any(r[0] == 'W' and r[1] == y and r[2] == t + ky for r in log):
                     raise _NoAssignment()
-                entry['reads'].append(sorted({(r[1], r[2] - t) for r in log if r[0] == 'R' and isinstance(r[2], int)}))
-            for nm in names:
-                for k in range(-lags, leads + 1):
-                    hit = False
-                    for d, b in zip(datas, base):
+                # offsets relative to t; a named period is reported as ['NAME', 'L', j] (j-th label)
+                entry['reads'].append(sorted({(r[1], r[2] - t) if r[2] < n0 else (r[1], 'L%d' % (r[2] - n0))
+                                              for r in log if r[0] == 'R' and isinstance(r[2], int)}, key=repr))
+            cells = [(nm, t + k, k) for nm in names for k in range(-lags, leads + 1)] + [(nm, n0 + j, 'L%d' % j) for nm in names for j in range(len(labels))]
+            for nm, pos, key in cells:
+                hit = False
+                for d, b in zip(datas, base):
+                    for dl in DELTAS:
                         d2 = {q: list(v) for q, v in d.items()}
-                        d2[nm][t + k] += 0.37
+                        d2[nm][pos] += dl
                         m = fresh(d2)
                         run(m, s.code)
                         v = float(np.asarray(m.__dict__['_' + y])[t + ky])
@@ -465,7 +502,9 @@ def _isolated(symbols, seed):
                             hit = True
                             break
                     if hit:
-                        entry['infl'].append([nm, k])
+                        break
+                if hit:
+                    entry['infl'].append([nm, key])
             entry['reads'] = [[list(x) for x in r] for r in entry['reads']]
         except _NoAssignment:
             entry = {'lhs': lhs, 'skip': 'no-assignment'}      # e.g. `Z==()`: accepted as an equation, but the code is a comparison
@@ -595,6 +634,37 @@ def varlike(x):
 TERM_ID = re.compile(r'([A-Za-z_][A-Za-z_0-9]*)\[t([+-][0-9]+)?\]')
 
 
+def _label_of(idx_text):
+    import ast
+    try:
+        return repr(ast.literal_eval(idx_text))
+    except (ValueError, SyntaxError):
+        return None
+
+
+def _node_cell(node, labels):
+    """(name, offset) of a node NAME[t+k]; (name, 'Lj') of a node NAME[label] whose label is the j-th one read by the code; else None"""
+    m = TERM_ID.fullmatch(node)
+    if m:
+        return (m.group(1), int(m.group(2) or 0))
+    m = re.fullmatch(r'([A-Za-z_][A-Za-z_0-9]*)\[(.*)\]', node, re.S)
+    if m:
+        lb = _label_of(m.group(2))
+        if lb is not None and lb in labels:
+            return (m.group(1), 'L%d' % labels.index(lb))
+    return None
+
+
+def _cell_node(nm, key, labels, nodes):
+    if isinstance(key, int):
+        return term_id(nm, key)
+    for n in nodes:
+        if _node_cell(n, labels) == (nm, key):
+            return n
+    j = int(key[1:])
+    return '%s[%s]' % (nm, labels[j] if j < len(labels) else '?')
+
+
 def oracle(case, obs):
     fails = []
     flags = set(case.get('flags', []))
@@ -608,11 +678,7 @@ def oracle(case, obs):
     if obs.get('parse') != 'ok':
         if case['k'] == 'prog' and not flags:
             add('grammar-program-rejected', 'a program of the grammar was rejected with ' + str(obs.get('parse')))
-        elif 'variable-and-function' in flags and obs.get('parse') != 'SymbolError':
-            add('function-variable-clash', 'a name used both as variable and as function: rejected with %s, not SymbolError' % obs.get('parse'))
         return fails
-    if 'variable-and-function' in flags:
-        add('function-variable-clash', 'a name used both as variable and as function (no model can hold both) was accepted')
     if obs.get('graph') != 'ok':
         verb = [x.split('|') for x in obs['sym'].split(';') if x]
         if (obs['graph'] == 'ValueError' and case['k'] == 's'
@@ -630,8 +696,6 @@ def oracle(case, obs):
     edges = {(a, b) for a, b in obs['edges']}
     if len(obs['edges']) != len(edges) or len(obs['nodes']) != len(nodes):
         add('duplicates', 'a node or edge is listed twice')
-    if obs.get('extra_attrs'):
-        add('node-attributes', 'nodes carry attributes other than `equation`: %s' % obs['extra_attrs'])
     # one node per left-hand-side term, carrying its normalised equation
     lhs_of = {}
     for name, e in obs['eqs']:
@@ -683,15 +747,16 @@ def oracle(case, obs):
                 add('isolated-evaluation-raises', 'executing the equation of %s alone raised %s' % (lhs, ent['exc']))
             continue
         into = {a for a, b in edges if b == lhs}
+        labels = ent.get('labels', [])
         for nm, k in ent['infl']:
-            if term_id(nm, k) not in into:
-                add('influence-without-edge', 'perturbing %s changes %s but there is no edge' % (term_id(nm, k), lhs))
+            node = _cell_node(nm, k, labels, into)
+            if node not in into:
+                add('influence-without-edge', 'perturbing %s changes %s but there is no edge' % (node, lhs))
         runs = [{(x[0], x[1]) for x in r} for r in ent['reads']]
         for a in sorted(into):
-            m = TERM_ID.fullmatch(a)
-            if not m:
+            key = _node_cell(a, labels)
+            if key is None:
                 continue
-            key = (m.group(1), int(m.group(2) or 0))
             seen = [key in r for r in runs]
             is_cond = cond.get(lhs, True)
             if case['k'] != 'prog':
